@@ -228,6 +228,9 @@ class Report:
     def add_tlc(self, st):
         self.states += int(st.get("distinct", 0))
         self.transitions += int(st.get("generated", 0))
+        if os.environ.get("VERIF_TIMING"):      # development aid: where the time goes
+            print(f"  [timing] t={time.time() - self.t0:7.1f}s  tlc_wall={float(st.get('wall_s', 0)):6.1f}s  "
+                  f"distinct={st.get('distinct')}", flush=True)
 
     def sample(self, obj, limit=6):
         if len(self.samples) < limit:
